@@ -20,7 +20,7 @@ RULE = ("Hypothesis draws (store algorithm, content, checksum algorithm from all
         ' Further checksum forms: a look-alike (one hex digit replaced by a Cyrillic / full-width twin) and the true digest of ANOTHER object that is in the store (often under the store algorithm, i.e. its cid).')
 ASSUMPTIONS = ["the ObjectMetadata given to delete_if_invalid_object is the one store_object returned",
                "expected sizes are positive integers (non-positive / non-integer sizes belong to C17)"]
-PID, OTHER = "pid:under/test", "pid:other"
+PID, OTHER = "doi:10.5063%2FF1%s%d/under-test%", "pid:other"    # (percent signs: identifiers are data, never format strings)
 
 
 def examples(tier):
@@ -45,6 +45,8 @@ def _case(draw, tier):
             "cks": cks, "cks_algo": draw(gen.algo_spelling()), "size": size,
             "dsize": draw(st.sampled_from([-1, 1, 7])), "flip": draw(st.integers(0, 200)),
             "kind": draw(st.sampled_from(["str", "path", "file", "bytesio", "gzip", "rwfile", "relpath"])),
+            # a stream handed over at a non-zero position: the WHOLE content is stored, the size to expect is the whole size
+            "offset": draw(st.sampled_from([0, 0, 1, 5, 10 ** 6])),
             # delete_if_invalid_object only: an earlier VALID call on the same ObjectMetadata (the verdict must
             # not depend on it)
             "dii_first": draw(st.sampled_from(["none", "none", "right", "upper"])),
@@ -58,7 +60,37 @@ def strategy(tier):
     return _case(tier)
 
 
+def enumerate_cases(tier):
+    # a long run of INVALID verdicts on one instance, then a valid request: every verdict depends on its own call only
+    for n in ((70,) if tier == "quick" else (70, 300)):
+        yield {"family": "many-rejections", "n": n, "cfg": {"algo": "SHA-256", "depth": 3, "width": 2},
+               "contents": [{"hex": "6f6e65"}, {"hex": "74776f"}]}
+
+
+def _many_rejections(case, ctx):
+    run = seq.Run(case, ctx)
+    for i in range(case["n"]):
+        wrong_cks = bool(i % 3)
+        r = run.step({"op": "store", "pid": f"rejected/{i}", "c": i % 2, "cks": "wrong" if wrong_cks else "none", "cks_algo": "sha256",
+                      "size": "none" if wrong_cks else "wrong", "dsize": 1, "flip": i})
+        want = "NonMatchingChecksum" if wrong_cks else "NonMatchingObjSize"
+        if is_ok(r.out) or r.out[1] != want:
+            ctx.violation("wrong-verdict", f"invalid request #{i + 1} in a row: outcome {'ok' if is_ok(r.out) else r.out[1] + ': ' + r.out[2][:120]}, "
+                          f"expected {want}", {"entry": "store", "valid": False, "cks": "run"})
+        p = run.residue_problem(r, ["objects/tmp"])
+        if p:
+            ctx.violation("tmp-left", f"invalid request #{i + 1} in a row: {p}", {"entry": "store", "valid": False})
+    r = run.step({"op": "store", "pid": "valid/after", "c": 0, "cks": "right", "cks_algo": "sha256", "size": "right"})
+    if not is_ok(r.out):
+        ctx.violation("wrong-verdict", f"a valid request after {case['n']} rejected ones raised {r.out[1]}: {r.out[2][:160]}",
+                      {"entry": "store", "valid": True, "cks": "run"})
+    ctx.classify("many-rejections")
+    ctx.nontrivial(["many-rejections", case["n"]])
+
+
 def run_case(case, ctx):
+    if case.get("family") == "many-rejections":
+        return _many_rejections(case, ctx)
     run = seq.Run(case, ctx)
     entry, prior = case["entry"], case["prior"]
     if prior == "unref":
@@ -77,7 +109,7 @@ def run_case(case, ctx):
                "other": case.get("add_other")}[case.get("add", "none")]
         if case.get("add") == "store-algo" and case["cks"] != "none":
             common_args["cks_algo"] = run.cfg.halgo      # checksum algorithm == additional == store algorithm
-        r = run.step(dict({"op": "store", "pid": PID, "kind": case["kind"], "add": add}, **common_args))
+        r = run.step(dict({"op": "store", "pid": PID, "kind": case["kind"], "add": add, "offset": case.get("offset", 0)}, **common_args))
     else:
         r0 = run.step({"op": "store", "pid": None, "c": 0, "kind": case["kind"]})
         if not is_ok(r0.out):
